@@ -526,8 +526,12 @@ def defaultFields : List Schema → Nat → Bool → Nat → List Node × Nat ×
       let r := fromDefaults f (some pid) f.key next
       match r.res with
       | .error e =>
-        let rest := blankFields fs pid onlyRequired r.next
-        (r.node :: rest.1, rest.2, .error e)
+        -- Dict: `child.set_default()` raised inside the existing child, which keeps what was done;
+        -- SparseDict ('required'): `self[name] = schema.from_defaults()` never happened, the blank
+        -- child placed by `_reset()` stays
+        let kept := if onlyRequired then (blank f (some pid) f.key r.next) else (r.node, r.next)
+        let rest := blankFields fs pid onlyRequired kept.2
+        (kept.1 :: rest.1, rest.2, .error e)
       | .ok _ =>
         let rest := defaultFields fs pid onlyRequired r.next
         (r.node :: rest.1, rest.2.1, rest.2.2)
